@@ -31,7 +31,7 @@ def print_assumptions(ck, prop, thm_file, rundir):
     axioms = []
     if rc == 0:
         for line in o.split("\n"):
-            m = re.match(r"^([A-Za-z_][A-Za-z0-9_.']*)\s*:", line)
+            m = re.match(r"^([A-Za-z_][A-Za-z0-9_.']*)\s*(:|$)", line)
             if m and not line.startswith(" ") and m.group(1) not in ("Axioms", "Closed"):
                 axioms.append(m.group(1))
     return rc == 0, o, sorted(set(axioms))
